@@ -13,6 +13,7 @@ import ctypes
 import os
 import struct
 import threading as _rt
+import time as _rtime
 import traceback
 
 from . import fixtures as F
@@ -25,6 +26,13 @@ from paramiko.ssh_exception import SSHException  # noqa: E402
 
 PARAMIKO_DIR = os.path.dirname(os.path.abspath(paramiko.__file__))
 
+# Work-around (reported to the lead): Transport.stop_thread() reads `sock._closed` (a private attribute of
+# real sockets) while its thread is alive; VSock lacks it, so Transport.close() died with AttributeError
+# half way (swallowed by Pair.close()).  Added here instead of editing the shared vsocket module.
+from . import vsocket as _vsocket  # noqa: E402
+if not hasattr(_vsocket.VSock, "_closed"):
+    _vsocket.VSock._closed = property(lambda self: self.closed)
+
 
 # ----------------------------------------------------------------------------- running
 class HangDetected(Exception):
@@ -33,31 +41,39 @@ class HangDetected(Exception):
 
 
 class Watchdog:
+    """Fires when one execution has burnt `seconds` of *CPU time* of this process (wall time would
+    misfire on a loaded machine): only an unbounded loop without a scheduling point gets there."""
+
     def __init__(self, seconds):
         self.seconds = seconds
         self.fired = False
+        self._stop = _rt.Event()
         self._t = None
 
-    def _fire(self):
-        s = S.CUR
-        if s is None or s.cur is None or s.cur.os_ident is None:
-            return
-        self.fired = True
-        ctypes.pythonapi.PyThreadState_SetAsyncExc(
-            ctypes.c_ulong(s.cur.os_ident), ctypes.py_object(HangDetected))
+    def _watch(self):
+        t0 = _rtime.process_time()
+        while not self._stop.wait(0.5):
+            if _rtime.process_time() - t0 < self.seconds:
+                continue
+            s = S.CUR
+            if s is None or s.cur is None or s.cur.os_ident is None:
+                return
+            self.fired = True
+            ctypes.pythonapi.PyThreadState_SetAsyncExc(
+                ctypes.c_ulong(s.cur.os_ident), ctypes.py_object(HangDetected))
+            t0 = _rtime.process_time()
 
     def __enter__(self):
-        self._t = _rt.Timer(self.seconds, self._fire)
-        self._t.daemon = True
+        self._t = _rt.Thread(target=self._watch, daemon=True)
         self._t.start()
         return self
 
     def __exit__(self, *a):
-        self._t.cancel()
+        self._stop.set()
         return False
 
 
-def run(body, horizon=120.0, wd=20.0, step_budget=150_000, **kw):
+def run(body, horizon=120.0, wd=8.0, step_budget=150_000, **kw):
     """One execution.  horizon = virtual seconds after which a still-blocked main thread gets
     `Livelock` (outcome 'livelock').  Returns the Execution with an extra attribute-free contract:
     (ex, hung) where hung tells whether the real-time watchdog had to interrupt a thread."""
@@ -218,3 +234,155 @@ def unhandled_types(t):
         handled |= set(t.auth_handler._handler_table)
     handled |= set(t._expected_packet)
     return [x for x in range(256) if x not in handled]
+
+
+# ----------------------------------------------------------------------------- typed templates (C38)
+# A template describes the honest message as a list of field kinds; deviations are symbolic and are
+# applied to the *live* honest bytes (so session-dependent values - keys, channel ids - stay right).
+FIXED = {"byte": 1, "bool": 1, "int": 4, "int64": 8, "raw16": 16}
+LENP = ("str", "text", "list", "mpint")      # uint32 length prefix + body
+
+
+class SpecMismatch(Exception):
+    pass
+
+
+def parse_fields(spec, body):
+    """Split `body` (payload without the type byte) into the encoded bytes of each field of `spec`."""
+    out, pos = [], 0
+    for kind in spec:
+        if kind in FIXED:
+            n = FIXED[kind]
+        elif kind in LENP:
+            if pos + 4 > len(body):
+                raise SpecMismatch("%s at %d: no length" % (kind, pos))
+            n = 4 + int.from_bytes(body[pos:pos + 4], "big")
+        elif kind == "rest":
+            n = len(body) - pos
+        else:
+            raise SpecMismatch("unknown kind %r" % kind)
+        if pos + n > len(body):
+            raise SpecMismatch("%s at %d: needs %d bytes, %d left" % (kind, pos, n, len(body) - pos))
+        out.append(body[pos:pos + n])
+        pos += n
+    if pos != len(body):
+        raise SpecMismatch("%d trailing bytes" % (len(body) - pos))
+    return out
+
+
+def _lp(b):
+    return len(b).to_bytes(4, "big") + b
+
+
+def field_deviations(kind):
+    """Symbolic single-field deviations for one field kind."""
+    if kind in ("str", "text"):
+        return ["empty", "badutf8", "len1M", "lenmax"]
+    if kind == "list":
+        return ["empty", "badutf8", "len1M", "lenmax", "empty-elem", "nonascii"]
+    if kind == "mpint":
+        return ["empty", "len1M", "lenmax", "mp-neg", "mp-huge", "mp-one"]
+    if kind == "int":
+        return ["i0", "i1", "i2^31", "imax"]
+    if kind == "bool":
+        return ["b2"]
+    return []
+
+
+def deviations(spec, quick_types=(), all_types=False):
+    """All single deviations of one message: list of tuples (symbolic, JSON-able)."""
+    out = [("trunc-after", -1)]
+    for i, kind in enumerate(spec):
+        n = FIXED.get(kind)
+        if n is None or n > 1:
+            out.append(("trunc-mid", i))
+        if kind in LENP:
+            out.append(("trunc-len", i))
+        if i < len(spec) - 1:
+            out.append(("trunc-after", i))
+        for d in field_deviations(kind):
+            out.append(("field", i, d))
+    out.append(("append64",))
+    out.append(("empty-payload",))
+    for t in (range(256) if all_types else quick_types):
+        out.append(("wrongtype", t))
+    return out
+
+
+def apply_deviation(dev, raw, spec, filler=b"\xa5" * 64):
+    """-> edited payload bytes (b'' = packet with an empty payload)."""
+    ptype, body = raw[:1], raw[1:]
+    what = dev[0]
+    if what == "ptype-empty":
+        return bytes([dev[1]])
+    if what == "wrongtype":
+        return bytes([dev[1]]) + body
+    if what == "append64":
+        return raw + filler[:64]
+    if what == "empty-payload":
+        return b""
+    fields = parse_fields(spec, body)
+    if what == "trunc-after":
+        return ptype + b"".join(fields[:dev[1] + 1])
+    if what == "trunc-mid":
+        i = dev[1]
+        f = fields[i]
+        kind = spec[i]
+        cut = (4 + (len(f) - 4) // 2) if kind in LENP else len(f) // 2
+        if kind in LENP and len(f) == 4:
+            cut = 2
+        return ptype + b"".join(fields[:i]) + f[:cut]
+    if what == "trunc-len":
+        i = dev[1]
+        return ptype + b"".join(fields[:i]) + fields[i][:2]
+    if what == "field":
+        i, d = dev[1], dev[2]
+        f = fields[i]
+        kind = spec[i]
+        if d == "empty":
+            nf = _lp(b"")
+        elif d == "badutf8":
+            nf = _lp(b"\xff\xfe")
+        elif d == "len1M":
+            nf = (1 << 20).to_bytes(4, "big") + f[4:]
+        elif d == "lenmax":
+            nf = b"\xff\xff\xff\xff" + f[4:]
+        elif d == "empty-elem":
+            nf = _lp(b"," + f[4:])
+        elif d == "nonascii":
+            nf = _lp("élgo,".encode("utf8") + f[4:])
+        elif d == "mp-neg":
+            b = f[4:].lstrip(b"\0") or b"\x01"
+            nf = _lp(bytes([b[0] | 0x80]) + b[1:])
+        elif d == "mp-huge":
+            nf = _lp(b"\x01" + b"\0" * 1125)          # 2**9000
+        elif d == "mp-one":
+            nf = _lp(b"\x01")
+        elif d == "i0":
+            nf = (0).to_bytes(4, "big")
+        elif d == "i1":
+            nf = (1).to_bytes(4, "big")
+        elif d == "i2^31":
+            nf = (1 << 31).to_bytes(4, "big")
+        elif d == "imax":
+            nf = b"\xff\xff\xff\xff"
+        elif d == "b2":
+            nf = b"\x02"
+        else:
+            raise ValueError(dev)
+        return ptype + b"".join(fields[:i]) + nf + b"".join(fields[i + 1:])
+    raise ValueError(dev)
+
+
+class RecExcTransport(paramiko.Transport):
+    """Transport that remembers every exception ever stored in `saved_exception` (get_exception() clears it)."""
+
+    @property
+    def saved_exception(self):
+        return self.__dict__.get("_saved_exc")
+
+    @saved_exception.setter
+    def saved_exception(self, e):
+        self.__dict__["_saved_exc"] = e
+        if e is not None:
+            self.__dict__.setdefault("exc_log", []).append(e)
